@@ -46,6 +46,16 @@ def gen_step(rng, n_hint):
     if m in ("modify", "modify_if"):
         st["key"] = rng.choice(["a", "c", "r"])
         st["add"] = rng.randint(1, 3)
+        if m == "modify" and rng.random() < 0.3:
+            # two pairs in ONE call, the second reading the key the first has just written: pairs are applied in order, item
+            # by item, as the plain loop does
+            st["key"] = "a"
+            st["key2"] = rng.choice(["c", "r", "s"])
+    if m in ("filter_fn", "filter_out_fn") and rng.random() < 0.2:
+        # a predicate AND key=value pairs in one call: whatever the two calls make of the combination, filter and filter_out
+        # given the same arguments split the list in two
+        ks = rng.sample(lodgen.COMMON, 1)
+        st["both_kvs"] = [[k, rng.choice(lodgen.pool(k))] for k in ks]
     if m == "fill":
         st["kvs"] = [[k, rng.choice([None, 7])] for k in rng.sample(lodgen.RAGGED + ["r"], rng.choice([1, 2]))]
     if m == "append":
@@ -131,6 +141,9 @@ def gen_cases(ctx):
     return cases
 
 
+BOTH_PARTITION = [None]      # filter / filter_out given a predicate and pairs at once: did the two split the list?
+
+
 def pred_fn(pred):
     k, v = pred
     return lambda item: item.get(k) == v
@@ -139,6 +152,12 @@ def pred_fn(pred):
 def apply_impl(lod, st):
     import dataiter as di
     m = st["m"]
+    if m in ("filter_fn", "filter_out_fn") and st.get("both_kvs"):
+        kv = dict(map(tuple, st["both_kvs"]))
+        a, b = lod.filter(pred_fn(st["pred"]), **kv), lod.filter_out(pred_fn(st["pred"]), **kv)
+        ia, ib, iall = [id(x) for x in a], [id(x) for x in b], [id(x) for x in lod]
+        BOTH_PARTITION[0] = (sorted(ia + ib) == sorted(iall) and ia == [i for i in iall if i in set(ia)] and ib == [i for i in iall if i in set(ib)])
+        return a if m == "filter_fn" else b
     if m == "filter_fn":
         return lod.filter(pred_fn(st["pred"]))
     if m == "filter_out_fn":
@@ -159,6 +178,8 @@ def apply_impl(lod, st):
         return lod.unselect(*st["keys"])
     if m == "rename":
         return lod.rename(**dict(map(tuple, st["to_from"])))
+    if m == "modify" and st.get("key2"):
+        return lod.modify(**{"a": lambda x: (x.get("a") or 0) + st["add"], st["key2"]: lambda x: (x.get("a") or 0) * 10})
     if m == "modify":
         return lod.modify(**{st["key"]: lambda x: (x.get("a") or 0) + st["add"]})
     if m == "modify_if":
@@ -241,7 +262,10 @@ def impl(case):
                 steps.append(rec)
                 continue
             try:
+                BOTH_PARTITION[0] = None
                 out = apply_impl(lod, st)
+                if BOTH_PARTITION[0] is not None:
+                    rec["both_partition"] = BOTH_PARTITION[0]
                 rec["post"] = tg.state(out)
                 rec["is_lod"] = type(out) is di.ListOfDicts and all(isinstance(x, AttributeDict) for x in out)
                 try:
@@ -304,7 +328,10 @@ def reference(pre, st):
         keys = list(dict.fromkeys(k for it in items for k in it[1]))
         for t, _ in items:
             d = store[t]
-            if m == "modify" or (m == "modify_if" and pred_fn(st["pred"])(d)):
+            if m == "modify" and st.get("key2"):
+                d["a"] = (d.get("a") or 0) + st["add"]
+                d[st["key2"]] = (d.get("a") or 0) * 10
+            elif m == "modify" or (m == "modify_if" and pred_fn(st["pred"])(d)):
                 d[st["key"]] = (d.get("a") or 0) + st["add"]
             elif m == "fill":
                 for k, v in st["kvs"]:
@@ -337,7 +364,7 @@ def reference(pre, st):
 def model_requests(case, obs):
     reqs = []
     for st, rec in zip(case["steps"], obs["steps"]):
-        if rec.get("skipped") or rec.get("shared") or "step" in rec.get("st", st):
+        if rec.get("skipped") or rec.get("shared") or "step" in rec.get("st", st) or rec.get("st", st).get("key2") or rec.get("st", st).get("both_kvs"):
             # (a stepped slice is judged by the Python-list reference alone: the model's slice has natural bounds, no step)
             reqs.append(("lod_reverse", {"xs": []}))
             continue
@@ -438,6 +465,11 @@ def judge(ctx, case, obs, mouts):
         if "err" in rec:
             ctx.violation("oracle", f"{m}:raises", f"ListOfDicts.{m} raised: {rec['err']}", sub, rec)
             break
+        if st.get("both_kvs"):
+            ctx.count("filter:predicate-and-pairs")
+            if rec.get("both_partition") is False:
+                ctx.violation("oracle", "filter:both:not-a-partition", "filter and filter_out given the same predicate and key=value pairs do not split the list in two (order kept)", sub, rec)
+            continue
         known = {t for t, kv in rec["pre"]}
         exp = reference(rec["pre"], st)
         got = rec["post"]
@@ -451,7 +483,7 @@ def judge(ctx, case, obs, mouts):
             nontrivial = True
         if rec.get("shared"):
             ctx.count("shared-object-edit")
-        if mouts is not None and idx < len(mouts) and not rec.get("shared") and "step" not in rec.get("st", st):
+        if mouts is not None and idx < len(mouts) and not rec.get("shared") and "step" not in rec.get("st", st) and not st.get("key2") and not st.get("both_kvs"):
             mo = mouts[idx]
             if isinstance(mo, dict) and "err" in mo:
                 ctx.violation("correspondence", f"{m}:model-error", f"model rejected the request: {mo['err']}", sub, rec, mo)
